@@ -61,9 +61,12 @@ def run_all(build, sc, progs, label, extra_defs="", batch=60, late_defs=""):
     return allres
 
 
-def validate(sc, progs, results, label, cfg="CoreRun.cfg", extra=None, shards=8, timeout=900):
+def validate(sc, progs, results, label, cfg="CoreRun.cfg", extra=None, shards=None, timeout=None):
     """TLC runs the machine on every program and prints OK/MISMATCH per id.  Returns (ok_ids, bad, tlc results)."""
     items = list(progs)
+    # shards of at most ~400 programs each (8 at least): TLC's time per shard stays bounded whatever the tier
+    shards = shards or max(8, (len(items) + 399) // 400)
+    timeout = timeout or 1800
     per = max(1, (len(items) + shards - 1) // shards)
     parts = list(vlib.chunks(items, per))
 
